@@ -164,7 +164,7 @@ fn main() {
                 std::process::exit(2)
             }
         });
-        match catch(run) {
+        match catch_outer(run) {
             Ok(x) => x,
             Err(p) => {
                 // counters of the interrupted engine are lost; the escaped panic itself is classified
